@@ -88,3 +88,4 @@ package cgroup
 //@   assigns nothing
 //@   ensures result.1 == nil ==> result.0 != nil && !cg_existing(result.0)
 //@   loop 0: invariant 0 <= try && try < 10000
+
